@@ -38,3 +38,30 @@ package convert
 //@   ensures [C14] result != nil && fresh(result)
 //@   ensures [C12,C13] pbq != nil ==> result.GroupBy == pbq.GroupBy
 //@   ensures [C14] (pbq == nil || pbq.Expr == nil || pbq.Expr.Value == nil) ==> result.Expr == nil
+
+//@ pred GroupsDone(pbr *updogv1.Result, result *updog.Result) :=
+//@   (forall j idx(pbr.Groups) :: pbr.Groups[j] != nil && !(pbr.Groups[j] in old($alloc)) && allocated(pbr.Groups[j]) && pbr.Groups[j].Count == result.Groups[j].Count
+//@        && len(pbr.Groups[j].Fields) == len(result.Groups[j].Fields)
+//@        && !(arr(pbr.Groups[j].Fields) in old($alloc)) && allocated(arr(pbr.Groups[j].Fields)) && (forall k idx(pbr.Groups[j].Fields) :: pbr.Groups[j].Fields[k] != nil
+//@        && !(pbr.Groups[j].Fields[k] in old($alloc)) && allocated(pbr.Groups[j].Fields[k])
+//@        && pbr.Groups[j].Fields[k].Column == result.Groups[j].Fields[k].Column && pbr.Groups[j].Fields[k].Value == result.Groups[j].Fields[k].Value))
+
+//@ func [C13,C14] ToProtobufResult(result, qid) (pbr)
+//@   requires result != nil
+//@   ensures [C13] pbr != nil && fresh(pbr) && pbr.QueryId == qid && pbr.TotalCount == result.Count
+//@   ensures [C13] len(pbr.Groups) == len(result.Groups)
+//@   ensures [C13] groups: forall j idx(pbr.Groups) :: pbr.Groups[j] != nil && pbr.Groups[j].Count == result.Groups[j].Count && len(pbr.Groups[j].Fields) == len(result.Groups[j].Fields)
+//@   ensures [C13] fields: forall j idx(pbr.Groups) :: forall k idx(pbr.Groups[j].Fields) :: pbr.Groups[j].Fields[k] != nil
+//@        && pbr.Groups[j].Fields[k].Column == result.Groups[j].Fields[k].Column && pbr.Groups[j].Fields[k].Value == result.Groups[j].Fields[k].Value
+//@   loop 1
+//@     invariant pbr != nil && !(pbr in old($alloc)) && len(pbr.Groups) == $i && 0 <= $i && $i <= len(result.Groups)
+//@     invariant pbr.QueryId == qid && pbr.TotalCount == result.Count
+//@     invariant arr(pbr.Groups) == nil || (!(arr(pbr.Groups) in old($alloc)) && allocated(arr(pbr.Groups)))
+//@     invariant GroupsDone(pbr, result)
+//@   loop 2
+//@     invariant len(fields) == $i && 0 <= $i && $i <= len(g.Fields)
+//@     invariant arr(fields) != nil && !(arr(fields) in old($alloc)) && allocated(arr(fields))
+//@     invariant forall k idx(fields) :: fields[k] != nil && !(fields[k] in old($alloc)) && allocated(fields[k])
+//@        && fields[k].Column == g.Fields[k].Column && fields[k].Value == g.Fields[k].Value
+//@     invariant GroupsDone(pbr, result)
+//@     invariant forall j idx(pbr.Groups) :: arr(pbr.Groups[j].Fields) != arr(fields)
